@@ -188,7 +188,7 @@ def run(ctx):
     quick = ctx.tier == "quick"
     ctx.build_go()
     ctx.build_emerge()
-    if not ctx.prepare(["fsops", "cliflags"], "Emerge.Props.C16", quick):
+    if not ctx.prepare(["fsops", "cliflags", "idrules"], "Emerge.Props.C16", quick):
         return ctx.finish(LEVEL, {"evaluations": 0, "distinct_nontrivial": 0, "samples": [], "explanation": "aborted"}, [])
     emerge = os.path.join(BUILD, "emerge")
     root = tempfile.mkdtemp(prefix="verif-c16-")
